@@ -275,7 +275,7 @@ func c04TreeGen(tier Tier) TreeGen {
 		Kinds: stackKinds,
 		Leaf:  func(t *rapid.T) Val { return genPrimVal(t, true, true) },
 		Conds: true, CondExprStack: true, CondExprCond: true, NotAsCondExpr: true,
-		NilLeaves: true, EmptyStacks: true, Caps: true, Ambient: true,
+		NilLeaves: true, EmptyStacks: true, Caps: true, Ambient: true, WideRuns: true,
 	}
 	if tier.Thorough {
 		g.MaxDepth, g.MaxWidth, g.Budget = 5, 8, 55
